@@ -17,6 +17,26 @@ RANK_TYPES = ('spearman', 'rho-a', 'kendall', 'tau-b', 'tau-a')
 WHITENED = ('cosine_cov', 'corr_cov')
 
 
+def reset_fp():
+    """restore numpy's default floating-point error handling.
+
+    core.watchdog aborts a spinning library call with an exception raised from a signal
+    handler; when that lands inside numpy.linalg's `with errstate(call=_raise_linalgerror_singular,
+    invalid='call')` enter/exit, the state leaks into the worker process and every later 0/0
+    (e.g. the NaN-aware mean of a pair no RDM has) raises 'LinAlgError: Singular matrix'.
+    Observed in a thorough run after fit_regress_nn had been aborted in the same process."""
+    np.seterr(divide='warn', over='warn', under='ignore', invalid='warn')
+    np.seterrcall(None)
+
+
+def guarded(check):
+    def run(case):
+        reset_fp()
+        return check(case)
+    run.__name__ = getattr(check, '__name__', 'check')
+    return run
+
+
 class Degenerate(Exception):
     """the reference value is undefined (0/0) - the case is outside the domain"""
 
